@@ -19,7 +19,7 @@ def run(rep, tier, replay):
     xtab = [t for t in shapes.EXPAND_QUICK if t[0] in names]
     if tier == "thorough":
         xtab = shapes.EXPAND_THOROUGH_FIXED + [shapes.random_expand_shape(rng, i) for i in range(16)]
-    mbad = sched.mc_legs(rep, [("expand", xtab)], pol, timeout=3000 if tier == "thorough" else 900)
+    mbad = sched.mc_legs(rep, [("expand", xtab)], pol, timeout=1200 if tier == "thorough" else 900)
     for name, c, r in mbad:
         rep.sample({"model_counterexample": name, "violated": r.violated, "temporal": r.temporal, "shape": c})
     files = sched.planted_files(rng)
